@@ -553,11 +553,12 @@ type Pred struct {
 }
 
 type PkgSpec struct {
-	Funcs   map[string]*FuncSpec
-	Preds   map[string]*Pred
-	Regexps map[string][]*CExpr // global regexp variable -> assumed facts over s and match(s)
-	Ghosts  map[string]*Ghost
-	Axioms  []*Axiom
+	Funcs         map[string]*FuncSpec
+	Preds         map[string]*Pred
+	Regexps       map[string][]*CExpr // global regexp variable -> assumed facts over s and match(s)
+	Ghosts        map[string]*Ghost
+	PureFuncTypes map[string]bool
+	Axioms        []*Axiom
 }
 
 // Ghost: an uninterpreted specification function that may read heap fields (passed as extra arguments).
@@ -575,7 +576,7 @@ type Axiom struct {
 }
 
 var clauseKeywords = map[string]bool{"func": true, "pred": true, "returns": true, "requires": true, "ensures": true,
-	"invariant": true, "decreases": true, "modifies": true, "loop": true, "pure": true, "trusted": true, "end": true, "regexp": true, "ghost": true, "axiom": true}
+	"invariant": true, "decreases": true, "modifies": true, "loop": true, "pure": true, "trusted": true, "end": true, "regexp": true, "ghost": true, "axiom": true, "functype": true}
 
 // collectContractLines extracts the "//@" lines of a file, joining continuation lines.
 func collectContractLines(f *ast.File) []string {
@@ -636,7 +637,7 @@ func parseLabelTags(rest string) (label string, tags []string, expr string) {
 }
 
 func parsePkgSpec(pkgName string, files []*ast.File, fileNames []string) (*PkgSpec, error) {
-	ps := &PkgSpec{Funcs: map[string]*FuncSpec{}, Preds: map[string]*Pred{}, Regexps: map[string][]*CExpr{}, Ghosts: map[string]*Ghost{}}
+	ps := &PkgSpec{Funcs: map[string]*FuncSpec{}, Preds: map[string]*Pred{}, Regexps: map[string][]*CExpr{}, Ghosts: map[string]*Ghost{}, PureFuncTypes: map[string]bool{}}
 	for fi, f := range files {
 		lines := collectContractLines(f)
 		var cur *FuncSpec
@@ -672,6 +673,14 @@ func parsePkgSpec(pkgName string, files []*ast.File, fileNames []string) (*PkgSp
 					return nil, fmt.Errorf("%s: pred %s: %v", fileNames[fi], name, err)
 				}
 				ps.Preds[name] = &Pred{Name: name, Params: params, Body: body}
+				cur = nil
+			case kw == "functype":
+				f := strings.Fields(rest)
+				if len(f) == 2 && f[1] == "pure" {
+					ps.PureFuncTypes[f[0]] = true
+				} else {
+					return nil, fmt.Errorf("%s: bad functype line: %s", fileNames[fi], l)
+				}
 				cur = nil
 			case kw == "ghost":
 				// ghost name(a T, b U) R reads X.f, Y.g
